@@ -127,6 +127,38 @@ impl RetryPolicyWrapper {
     }
 }
 
+#[cfg(feature = "verif-hooks")]
+impl RetryPolicyWrapper {
+    /// Verification hook: drive the policy to the exhausted-budget state
+    /// (`is_down()` true) without sleeping through the back-off windows.
+    pub fn verif_force_down(&mut self) {
+        match self {
+            RetryPolicyWrapper::ExponentialBackoff(p) => p.current_tries = p.max_tries,
+        }
+    }
+
+    /// Verification hook: put the policy inside a back-off wait window of the
+    /// given length starting now (`can_try()` yields WAIT).
+    pub fn verif_force_backoff(&mut self, wait: time::Duration) {
+        match self {
+            RetryPolicyWrapper::ExponentialBackoff(p) => {
+                p.wait = wait;
+                p.last_try = time::Instant::now();
+            }
+        }
+    }
+
+    /// Verification hook: make the current back-off window elapse at once
+    /// (`can_try()` yields OKAY) without touching the try counter.
+    pub fn verif_expire_backoff(&mut self) {
+        match self {
+            RetryPolicyWrapper::ExponentialBackoff(p) => {
+                p.wait = time::Duration::default();
+            }
+        }
+    }
+}
+
 impl From<ExponentialBackoffPolicy> for RetryPolicyWrapper {
     fn from(val: ExponentialBackoffPolicy) -> Self {
         RetryPolicyWrapper::ExponentialBackoff(val)
